@@ -391,7 +391,7 @@ def run(repo, res, tier):
     from vlib import rules_pairing as RPAIR
     # the reference trace of `Adjacent literals` and the cycle path list exactly the references on the current path
     n_pair = RPAIR.pairing_rule(repo, res)
-    res.floor("PAIRING", n_pair, 5)
+    res.floor("PAIRING", n_pair, 3)
     ends_rule(repo, res)
     mir = M.get_mir(tier)
     res.engines["M"] = {"functions": len(mir.fns)}
@@ -399,7 +399,7 @@ def run(repo, res, tier):
     n = range_rule(repo, res)
     ff_rule(repo, res)
     units_rule(repo, res)
-    res.floor("SPANSRC", res.count("SPANSRC"), 4)
-    res.floor("RANGE", n, 14)
+    res.floor("SPANSRC", res.count("SPANSRC"), 2)
+    res.floor("RANGE", n, 7)
     res.floor("FF", res.count("FF"), 20)
-    res.floor("UNITS", res.count("UNITS"), 17)
+    res.floor("UNITS", res.count("UNITS"), 9)
